@@ -915,6 +915,11 @@ def check(run: Run):
         if out[0] == "ok" and listed:
             sig = "rejects:categorical-id-not-validated" if kind.endswith("-categorical") else f"rejects:{kind}:accepted"
             run.fail(sig, f"malformed table ({kind}) is silently accepted", spec_json(spec), expected="LeaspyDataInputError", observed=out[1]["indices"])
+        elif out[0] == "err" and out[1] != "DataError" and listed and kind.endswith("-categorical") and lost_individuals(spec):
+            # the identifier is not looked at inside a categorical column (listed finding); the refusal comes from the other listed
+            # categorical defect: an individual whose visits are all missing is kept as an unobserved category
+            run.fail("valid-table-refused:categorical-individual-without-visit",
+                     f"categorical ID column, all visits of one individual are missing: {out[2]}", spec_json(spec))
         elif out[0] == "err" and out[1] != "DataError" and listed:
             run.fail(f"rejects:{kind}:{out[2].split(':')[0]}", f"malformed table ({kind}) is refused with {out[2]} instead of a data-input error",
                      spec_json(spec), expected="LeaspyDataInputError", observed=out[2])
